@@ -16,7 +16,7 @@ func init() { register("C32", checkC32) }
 func checkC32(p *Prog, r *Result, tier string) {
 	r.Technique = "guard/dominance and literal-source rules in CalculateRemap (type-resolved AST), pairing rules along the push path (manager, calcium, engine), call-graph reachability from every function that changes node usage to the remap trigger"
 	r.Explanation = "SH the share map is built from the node's AVAILABLE per-core pieces, taking exactly the cores with at least one share base free, each at the share base; when that set is empty every core of the node's capacity is taken; " +
-		"UB an engine parameter set is produced only for workloads whose recorded CPU map is empty (insertion inside `len(workload.CPUMap) == 0` on the entry keyed by the same id), so bound workloads are left untouched; LIT that set carries the share map, Remap=true, the workload's CPU limit, memory limit and NUMA node; " +
+		"ALL the only successful return before the loop that fills the parameter map is the empty-list case, so every unbound workload handed in gets a parameter set; UB an engine parameter set is produced only for workloads whose recorded CPU map is empty (insertion inside `len(workload.CPUMap) == 0` on the entry keyed by the same id), so bound workloads are left untouched; LIT that set carries the share map, Remap=true, the workload's CPU limit, memory limit and NUMA node; " +
 		"PUSH the manager hands each plugin that plugin's share of every workload keyed by workload id, and calcium lists the node's workloads, asks the manager and pushes each returned parameter set to the engine under the id it was returned for; " +
 		"TRG every function of cluster/calcium that changes node usage (alloc, realloc, usage increments/decrements, and their rollbacks) can reach RemapResourceAndLog, which takes the node-operation lock and calls the push."
 	r.NotCovered = "that the remap is the last step of an operation (a rollback after the per-node remap leaves the share pool stale until the next operation on the node); engine behaviour; concurrent remaps of one node"
@@ -192,6 +192,61 @@ func checkC32(p *Prog, r *Result, tier string) {
 			return true
 		})
 		r.check2(why, "UB", F.Name+" / only workloads without a CPU binding are remapped", p.pos(at), "engineParamsMap[ID] = … inside `if len(workloadResource.CPUMap) == 0`")
+		// ALL: every unbound workload gets its entry: the only successful return before the loop that fills the map is the
+		// one for an empty workload list — a short cut for "nothing bound on this node" leaves workloads pinned to the pool
+		// an earlier remap gave them
+		{
+			var fill *ast.RangeStmt
+			F.inspectBody(func(n ast.Node) bool {
+				rs, ok := n.(*ast.RangeStmt)
+				if !ok {
+					return true
+				}
+				ast.Inspect(rs.Body, func(x ast.Node) bool {
+					if as, ok := x.(*ast.AssignStmt); ok && len(as.Lhs) == 1 {
+						if ix, ok := unparen(as.Lhs[0]).(*ast.IndexExpr); ok && strings.Contains(exprStr(ix.X), "ngineParams") {
+							fill = rs
+						}
+					}
+					return true
+				})
+				return true
+			})
+			whyA := ""
+			if fill == nil {
+				whyA = "no loop fills the engine-parameter map"
+			} else {
+				wl := F.paramObj(2)
+				F.inspectBody(func(n ast.Node) bool {
+					rt, ok := n.(*ast.ReturnStmt)
+					if !ok || len(rt.Results) != 2 || isNilIdent(rt.Results[0]) || rt.Pos() > fill.End() {
+						return true
+					}
+					// allowed: inside `if len(<workloads parameter>) == 0`
+					okEarly := false
+					F.inspectBody(func(y ast.Node) bool {
+						is, ok := y.(*ast.IfStmt)
+						if !ok || !(is.Body.Pos() <= rt.Pos() && rt.End() <= is.Body.End()) {
+							return true
+						}
+						if be, ok := unparen(is.Cond).(*ast.BinaryExpr); ok && be.Op == token.EQL {
+							if c, ok := unparen(be.X).(*ast.CallExpr); ok && len(c.Args) == 1 && exprStr(c.Fun) == "len" && F.objOf(c.Args[0]) == wl {
+								if k, isC := F.constInt(be.Y); isC && k == 0 {
+									okEarly = true
+								}
+							}
+						}
+						return true
+					})
+					if !okEarly {
+						whyA = "the successful return at " + p.pos(rt) + " comes before the loop that gives every unbound workload its share pool and is not the empty-list case: the unbound workloads get no parameters and stay on whatever cores an earlier remap pinned them to"
+					}
+					return true
+				})
+			}
+			r.min("ALL", 1)
+			r.check2(whyA, "ALL", F.Name+" / every unbound workload handed in gets a parameter set", p.pos(F.Decl), "the only successful return before the filling loop is `if len(workloads) == 0`")
+		}
 		why = "engine parameter literal not found"
 		if lit != nil {
 			why = ""
